@@ -228,3 +228,26 @@ Definition children_first (order : list pos) : Prop :=
 Definition covers (spec : nat -> pos -> option fdata) (start : nat) (order : list pos) : Prop :=
   forall p, (pn p < start)%nat ->
             (exists c, In c (children p) /\ spec (start - S (pn p))%nat c <> None) -> In p order.
+
+(* what C01/C13 provide about the sequence of callback positions of
+   Pyramid.walk for a cascade from level [start] over the store [st0] *)
+Definition valid_order (u : mode -> pixel -> pixel -> pixel) (dflt : fmt) (k : Z)
+           (orc : pos -> Z -> Z -> pixel) (st0 : store) (start : nat) (order : list pos) : Prop :=
+  (forall p, In p order -> (pn p < start)%nat) /\ NoDup order /\ children_first order /\
+  covers (pyramid_spec u dflt k orc (fun p => st0 p dflt)) start order.
+
+(* no tile files above the start level before the cascade *)
+Definition upper_levels_empty (dflt : fmt) (st0 : store) (start : nat) : Prop :=
+  forall p, (pn p < start)%nat -> st0 p dflt = None.
+
+(* compact description of the placement, used by the correspondence to expand
+   the model in numpy: for child i = 0..3 the resolved row and column indexers
+   of its quadrant in the 2k x 2k buffer, flattened as
+   [first_y; step_y; count_y; first_x; step_x; count_x] (all -1 when a slice
+   does not resolve) *)
+Definition view_flat (o : option view) : list Z :=
+  match o with Some v => [v_first v; v_step v; v_count v] | None => [-1; -1; -1] end.
+
+Definition placement (f : fmt) (k : Z) : list Z :=
+  flat_map (fun sl => view_flat (slice_view (2 * k) (fst sl)) ++ view_flat (slice_view (2 * k) (snd sl)))
+           (slices_for f k).
